@@ -1,9 +1,73 @@
-(* C12: cluster lookup combines basic and advanced rules as documented.  Property theorems only. *)
+(* C12: cluster lookup combines basic and advanced rules as documented.  Property theorems only.
+   Model: model/ClusterLookup.v (bfe_route/host_table.go:LookupCluster) on top of the C11 tree model.
+   `holds c req` is rule.Cond.Match(req) for an arbitrary condition type (abstract in every theorem);
+   `basic_result basic req` is BasicRouteRuleTree.Get on the request host without ":port" and the URL path
+   (None when the product has no basic table);  deferred b := b = None \/ b = Some "ADVANCED_MODE". *)
 From Coq Require Import List ZArith Bool.
-From Bfe Require Import lib.Val lib.Bytes model.BasicRoute model.ClusterLookup run.RunC12.
+From Bfe Require Import lib.Val lib.ValProofs lib.Bytes model.BasicRoute model.ClusterLookup
+     proofs.ClusterLookupProofs run.RunC12.
 Import ListNotations.
 Open Scope Z_scope.
 
-Example C12_placeholder : kf_C12 (VL []) = 0.
-Proof. exact eq_refl. Qed.
-Print Assumptions C12_placeholder.
+(* The basic-rule result is final when it names a real cluster: advanced rules are not consulted. *)
+Theorem C12_basic_wins : forall (C : Type) (holds : C -> request -> bool) basic adv req cl,
+  basic_result basic req = Some cl -> cl <> ADVANCED_MODE -> lookup_cluster holds basic adv req = COk cl.
+Proof. exact @basic_wins. Qed.
+Print Assumptions C12_basic_wins.
+
+(* HEADLINE.  When the basic table misses or yields ADVANCED_MODE, the cluster is that of the FIRST advanced rule,
+   in configured order, whose condition holds: all rules before it (pre) do not hold; rules after it are irrelevant. *)
+Theorem C12_advanced_first_match : forall (C : Type) (holds : C -> request -> bool) basic pre c cl post req,
+  deferred (basic_result basic req) ->
+  Forall (fun r => holds (fst r) req = false) pre -> holds c req = true -> cl <> [] ->
+  lookup_cluster holds basic (Some (pre ++ (c, cl) :: post)) req = COk cl.
+Proof. exact @advanced_first_match. Qed.
+Print Assumptions C12_advanced_first_match.
+
+(* Nothing matches: ErrNoMatchRule, no cluster (the request is not forwarded). *)
+Theorem C12_no_match_error : forall (C : Type) (holds : C -> request -> bool) basic rules req,
+  deferred (basic_result basic req) ->
+  Forall (fun r => holds (fst r) req = false) rules ->
+  lookup_cluster holds basic (Some rules) req = CErrNoMatchRule.
+Proof. exact @no_match_error. Qed.
+Print Assumptions C12_no_match_error.
+
+(* The product has no advanced table at all: ErrNoProductRule. *)
+Theorem C12_no_product_rule : forall (C : Type) (holds : C -> request -> bool) basic req,
+  deferred (basic_result basic req) -> lookup_cluster holds basic None req = CErrNoProductRule.
+Proof. exact @no_product_rule. Qed.
+Print Assumptions C12_no_product_rule.
+
+(* ADVANCED_MODE in the basic table is never returned as a cluster by the basic step: the answer is exactly the
+   advanced table's decision. *)
+Theorem C12_advanced_mode_falls_through : forall (C : Type) (holds : C -> request -> bool) basic adv req,
+  basic_result basic req = Some ADVANCED_MODE ->
+  lookup_cluster holds basic adv req = advanced_part holds adv req.
+Proof. exact @advanced_mode_falls_through. Qed.
+Print Assumptions C12_advanced_mode_falls_through.
+
+(* Total characterisation: LookupCluster equals the specification function for every input. *)
+Theorem C12_lookup_refines_spec : forall (C : Type) (holds : C -> request -> bool) basic adv req,
+  lookup_cluster holds basic adv req = spec_cluster holds (basic_result basic req) adv req.
+Proof. exact @lookup_refines_spec. Qed.
+Print Assumptions C12_lookup_refines_spec.
+
+(* The executable property evaluated by the harness (documented basic choice doc_route of C11 + first advanced
+   match) holds of the model on every well-formed input; this composes C11_get_refines_doc with the above. *)
+Theorem C12_prop_of_model : forall i, dec_C12 i <> None -> prop_C12 i (run_C12 i) = true.
+Proof. exact prop_C12_of_model. Qed.
+Print Assumptions C12_prop_of_model.
+
+(* Non-vacuity: basic {www.a.com /a* -> B ; www.c.com * -> ADVANCED_MODE}, advanced [POST -> P ; /x -> X ; default -> D]. *)
+From Coq Require Import String.
+Local Open Scope string_scope.
+Import BasicRouteProofs.
+Example C12_examples :
+  ex_basic <> None /\
+  lookup_cluster cond_holds ex_basic ex_adv (mkReq (b "www.a.com:8080") (b "/a/1") (b "POST")) = COk (b "B") /\
+  lookup_cluster cond_holds ex_basic ex_adv (mkReq (b "www.c.com") (b "/x") (b "POST")) = COk (b "P") /\
+  lookup_cluster cond_holds ex_basic ex_adv (mkReq (b "www.c.com") (b "/x") (b "GET")) = COk (b "X") /\
+  lookup_cluster cond_holds ex_basic ex_adv (mkReq (b "www.a.com") (b "/b") (b "GET")) = COk (b "D") /\
+  lookup_cluster cond_holds ex_basic (Some [(CMethodIn [b "POST"], b "P")]) (mkReq (b "www.a.com") (b "/b") (b "GET")) = CErrNoMatchRule /\
+  lookup_cluster cond_holds ex_basic None (mkReq (b "www.c.com") (b "/") (b "GET")) = CErrNoProductRule.
+Proof. exact ex_lookups. Qed.
